@@ -133,6 +133,10 @@ def gen_history(rnd, length):
     return ops
 
 
+class HarnessInterrupt(BaseException):
+    """Raised by a result handler in place of KeyboardInterrupt / SystemExit."""
+
+
 class PState:
     def __init__(self, ns, pi):
         from ptera import probing
@@ -150,7 +154,13 @@ class PState:
                 self.raisers = getattr(self, "raisers", 0) + 1
                 key = "b" if self.pi == 0 else "a"
 
-                def fail(v):
+                # every second failing handler raises something that is not an Exception (what a
+                # KeyboardInterrupt or a sys.exit() guard inside a result handler amounts to)
+                interrupt = (self.raisers + self.pi) % 2 == 0
+
+                def fail(v, interrupt=interrupt):
+                    if interrupt:
+                        raise HarnessInterrupt("result handler interrupted")
                     raise RuntimeError("result handler fails")
 
                 self.p[key].max().subscribe(fail)
@@ -315,12 +325,14 @@ def run_history(ns, ops, res):
                         p.p.deactivate()
                     else:
                         via.__exit__(None, None, None)
-                except Exception as ex:
+                except (Exception, HarnessInterrupt) as ex:
                     # completing a failing subscriber raises out of the deactivation; the probe
                     # must be deactivated nonetheless (checked below like any deactivation)
-                    if not getattr(p, "raisers", 0) or type(ex).__name__ not in ("RuntimeError", "SequenceContainsNoElementsError"):
+                    if not getattr(p, "raisers", 0) or type(ex).__name__ not in ("RuntimeError", "SequenceContainsNoElementsError", "HarnessInterrupt"):
                         raise
                     info["failing_completions"] = info.get("failing_completions", 0) + 1
+                    if isinstance(ex, HarnessInterrupt):
+                        info["interrupted_completions"] = info.get("interrupted_completions", 0) + 1
                 p.state = "done"
             elif kind == "call":
                 x = op[1]
@@ -350,9 +362,11 @@ def run_history(ns, ops, res):
                 if p.state == "active":
                     try:
                         p.entered_via.__exit__(None, None, None)
-                    except Exception as ex:
-                        if not getattr(p, "raisers", 0) or type(ex).__name__ not in ("RuntimeError", "SequenceContainsNoElementsError"):
+                    except (Exception, HarnessInterrupt) as ex:
+                        if not getattr(p, "raisers", 0) or type(ex).__name__ not in ("RuntimeError", "SequenceContainsNoElementsError", "HarnessInterrupt"):
                             raise
+                        if isinstance(ex, HarnessInterrupt):
+                            info["interrupted_completions"] = info.get("interrupted_completions", 0) + 1
                     p.state = "done"
             f(3)
             check("wind-down (everything deactivated, one more call)")
@@ -383,6 +397,8 @@ def run_shard(spec):
         if info["activated"] and info["calls_in"] and info["calls_out"] and info["late_stage"]:
             res.nontrivial_case(ops)
         res.count("refused_reactivations", info["refusals"])
+        res.count("failing_completions", info.get("failing_completions", 0))
+        res.count("interrupted_completions", info.get("interrupted_completions", 0))
         res.count("steps", len(ops))
         if n % 400 == 0:
             res.sample(case)
